@@ -15,10 +15,12 @@ def daemon_specs(tier, seed):
     grid = []
     for pk, crt in ((None, None), (0o640, 0o600), (0o400, 0o644), (0o666, 0o666), (0o600, 0o444)):
         for um in (0o022, 0o077, 0o000, 0o027):
-            for who in (None, ("1", "1"), ("daemon", "daemon"), ("65534", "nogroup"), ("nobody", "65534")):
+            # numbers need no entry in the user/group database (containers, NFS and directory-service ids): 54321/54322 have none here
+            for who in (None, ("1", "1"), ("daemon", "daemon"), ("65534", "nogroup"), ("nobody", "65534"), ("54321", "54322"), ("daemon", "54322"), ("54321", "daemon")):
                 grid.append((pk, crt, um, who))
     if tier != "thorough":
-        grid = rng.sample(grid, 14) + [(None, None, 0o022, None), (0o640, 0o600, 0o000, ("nobody", "nogroup"))]
+        grid = rng.sample(grid, 14) + [(None, None, 0o022, None), (0o640, 0o600, 0o000, ("nobody", "nogroup")), (None, None, 0o022, ("54321", "54322")),
+                                       (0o640, 0o644, 0o027, ("daemon", "54322"))]
     import pwd, grp
     for (pk, crt, um, who) in grid:
         g = {}
